@@ -40,6 +40,15 @@ static Step gen_op(Rng &r)
 {
 	Step s;
 	int k = (int)r.below(10);
+	if (r.chance(1, 14)) {
+		// a refused call that leaves the builder's error flag set (only meaningful on the builder target)
+		s = Step("ERRFLAG");
+		s.set("kind", r.range(0, 2));
+		s.set("clear", r.chance(1, 3) ? 1 : 0);
+		s.set("hdr", 0);
+		s.set("name", 0);
+		return s;
+	}
 	if (k < 5) {
 		s = Step("SET");
 		s.set("type", r.range(0, 3));
@@ -56,6 +65,10 @@ static Step gen_op(Rng &r)
 	// small colliding alphabet, "" and NULL less often
 	int n = r.chance(3, 4) ? (int)r.below(4) : (int)r.below((uint64_t)N_NAMES);
 	s.set("name", n);
+	// the application keeps its jwt_value_t from the previous SET (GET) and only flips what it wants changed:
+	// the retry "EXIST -> replace = 1 -> call again", the poll "NOEXIST ... call again"
+	if (s.op != "DEL" && r.chance(1, 5))
+		s.set("carry", 1);
 	return s;
 }
 
@@ -106,6 +119,11 @@ struct MapRun {
 	json_t *model[2]; // [0] claims, [1] headers
 	const char *where;
 	int steps_done = 0;
+	// the value structures of the previous SET and GET, as an application that re-uses them would hold them
+	bool have_set = false, have_get = false;
+	jwt_value_t last_set, last_get;
+	Step last_set_step, last_get_step;
+	std::string last_set_sv; // storage the kept value points into
 };
 
 static json_t *snapshot(MapTarget &t, bool hdr, int &rc)
@@ -153,16 +171,78 @@ static void run_op(MapRun &mr, const Step &s, size_t si)
 	std::string desc;
 	int rc = 0, want = JWT_VALUE_ERR_NONE;
 	bool fired = false;
-	json_t *before = fail_at ? json_deep_copy(m) : NULL;
+	json_t *before = NULL;
 	bool dontcare_rc = false;
 
+	if (s.op == "ERRFLAG") {
+		if (!mr.t.b)
+			return;
+		int kind = (int)s.I("kind");
+		int r0;
+		{
+			Armed a;
+			if (kind == 0)
+				r0 = jwt_builder_setkey(mr.t.b, JWT_ALG_HS256, NULL); // algorithm without a key: refused
+			else if (kind == 1)
+				r0 = jwt_builder_setcb(mr.t.b, NULL, &mr); // context without a callback: refused
+			else
+				r0 = jwt_builder_setkey(mr.t.b, JWT_ALG_INVAL, NULL);
+		}
+		int flag = jwt_builder_error(mr.t.b);
+		if (s.I("clear"))
+			jwt_builder_error_clear(mr.t.b);
+		ctx.logf("ERRFLAG kind=%d -> %d, builder error flag %d%s", kind, r0, flag, s.I("clear") ? ", cleared" : "");
+		ctx.sig(strf("C15|%s|ERRFLAG|%d|%d|%d", mr.where, kind, r0 != 0, (int)s.I("clear")));
+		if (r0 != 0 && !s.I("clear"))
+			ctx.count("probe:map_operations_follow_with_builder_error_flag_set");
+		compare_state(mr, si, "ERRFLAG");
+		return;
+	}
+	// carry: this step re-issues the previous SET (GET) with the very jwt_value_t the application still holds
+	const Step *eff = &s;
+	bool carry = false;
+	if (s.I("carry")) {
+		if (s.op == "SET" && mr.have_set) {
+			eff = &mr.last_set_step;
+			carry = true;
+		} else if (s.op == "GET" && mr.have_get) {
+			eff = &mr.last_get_step;
+			carry = true;
+		}
+	}
+	if (carry) {
+		hdr = eff->I("hdr") != 0;
+		m = mr.model[hdr ? 1 : 0];
+		name = NAMES[(uint64_t)eff->I("name") % N_NAMES];
+		noname = !name || !*name;
+		ctx.count("probe:value_struct_reused_without_reinitialising");
+	}
+	before = fail_at ? json_deep_copy(m) : NULL;
 	if (s.op == "SET") {
-		int type = (int)s.I("type");
-		int replace = (int)s.I("replace");
-		int sel = (int)s.I("val");
+		int type = (int)eff->I("type");
+		int replace = carry ? 1 : (int)s.I("replace");
+		int sel = (int)eff->I("val");
 		jwt_value_t jv;
 		json_t *newval = NULL;
 		std::string sv;
+		if (carry) {
+			jv = mr.last_set;
+			jv.replace = 1;
+			sv = mr.last_set_sv;
+			switch (type) {
+			case T_INT:
+				newval = json_integer(jv.int_val);
+				break;
+			case T_STR:
+				newval = json_string(sv.c_str());
+				break;
+			case T_BOOL:
+				newval = json_boolean(sel % 2);
+				break;
+			default:
+				newval = eff->I("badjson") ? NULL : json_loads(sv.c_str(), 0, NULL);
+			}
+		} else
 		switch (type) {
 		case T_INT:
 			jv_set_int(&jv, name, INTS[sel % (int)ARRAY_LEN(INTS)], replace);
@@ -184,7 +264,15 @@ static void run_op(MapRun &mr, const Step &s, size_t si)
 			newval = bad ? NULL : json_loads(sv.c_str(), 0, NULL);
 		}
 		}
-		desc = strf("SET %s %s name=%s replace=%d val=%s", hdr ? "hdr" : "claim", type == T_INT ? "INT" : type == T_STR ? "STR" : type == T_BOOL ? "BOOL" : "JSON",
+		if (!carry && (type == T_STR || type == T_JSON)) {
+			// keep the text alive in the run so that a later carry step can re-use the structure
+			mr.last_set_sv = sv;
+			if (type == T_STR)
+				jv.str_val = mr.last_set_sv.c_str();
+			else
+				jv.json_val = (char *)mr.last_set_sv.c_str();
+		}
+		desc = strf("SET%s %s %s name=%s replace=%d val=%s", carry ? "(same jwt_value_t as the previous SET, replace=1)" : "", hdr ? "hdr" : "claim", type == T_INT ? "INT" : type == T_STR ? "STR" : type == T_BOOL ? "BOOL" : "JSON",
 			    name ? show(name, 12).c_str() : "(null)", replace, type == T_INT ? strf("%ld", jv.int_val).c_str() : show(sv, 24).c_str());
 		// ---- model
 		if (type != T_JSON) {
@@ -217,15 +305,22 @@ static void run_op(MapRun &mr, const Step &s, size_t si)
 			rc = mr.t.set(hdr, &jv);
 			fired = a.fired() > 0;
 		}
+		mr.last_set = jv;
+		if (!carry)
+			mr.last_set_step = s;
+		mr.have_set = true;
 		if (newval)
 			json_decref(newval);
 		if (rc != (int)jv.error && !fired)
 			ctx.violation("C14", "value-error-field", "set", strf("%s returned %s but value.error is %s", desc.c_str(), verr_name(rc), verr_name(jv.error)));
 	} else if (s.op == "GET") {
-		int type = (int)s.I("type");
+		int type = (int)eff->I("type");
 		jwt_value_t jv;
-		jv_get(&jv, type == T_INT ? JWT_VALUE_INT : type == T_STR ? JWT_VALUE_STR : type == T_BOOL ? JWT_VALUE_BOOL : JWT_VALUE_JSON, name);
-		desc = strf("GET %s %s name=%s", hdr ? "hdr" : "claim", type == T_INT ? "INT" : type == T_STR ? "STR" : type == T_BOOL ? "BOOL" : "JSON", name ? show(name, 12).c_str() : "(null)");
+		if (carry)
+			jv = mr.last_get;
+		else
+			jv_get(&jv, type == T_INT ? JWT_VALUE_INT : type == T_STR ? JWT_VALUE_STR : type == T_BOOL ? JWT_VALUE_BOOL : JWT_VALUE_JSON, name);
+		desc = strf("GET%s %s %s name=%s", carry ? "(same jwt_value_t as the previous GET)" : "", hdr ? "hdr" : "claim", type == T_INT ? "INT" : type == T_STR ? "STR" : type == T_BOOL ? "BOOL" : "JSON", name ? show(name, 12).c_str() : "(null)");
 		json_t *mv = noname ? NULL : json_object_get(m, name);
 		bool typeok = false;
 		if (type == T_JSON) {
@@ -276,6 +371,11 @@ static void run_op(MapRun &mr, const Step &s, size_t si)
 		}
 		if (type == T_JSON && jv.json_val)
 			sim_harness_free(jv.json_val);
+		jv.json_val = NULL; // freed (an application would do the same before re-using the structure)
+		mr.last_get = jv;
+		if (!carry)
+			mr.last_get_step = s;
+		mr.have_get = true;
 	} else if (s.op == "DEL") {
 		desc = strf("DEL %s name=%s", hdr ? "hdr" : "claim", name ? show(name, 12).c_str() : "(null)");
 		if (noname)
@@ -288,7 +388,7 @@ static void run_op(MapRun &mr, const Step &s, size_t si)
 	} else
 		return;
 	ctx.logf("%s -> %s (model %s)%s", desc.c_str(), verr_name(rc), dontcare_rc ? "dont-care" : verr_name(want), fired ? " [alloc fault fired]" : "");
-	ctx.sig(strf("C15|%s|%s|%s|%d|n%lld|r%lld|rc%d%s", mr.where, s.op.c_str(), hdr ? "h" : "c", (int)s.I("type"), (long long)s.I("name") % N_NAMES, (long long)s.I("replace"), rc, fired ? "|fault" : ""));
+	ctx.sig(strf("C15|%s|%s|%s|%d|n%lld|r%lld|rc%d%s%s", mr.where, s.op.c_str(), hdr ? "h" : "c", (int)eff->I("type"), (long long)eff->I("name") % N_NAMES, (long long)s.I("replace"), rc, fired ? "|fault" : "", carry ? "|carry" : ""));
 	mr.steps_done++;
 	if (fired) {
 		ctx.count("fault:alloc_fail_in_setget");
